@@ -310,6 +310,7 @@ class Client(object):
                 if self.timeout > 0.0 and self.timer.expired:  # timed out
                     self.reopen()
                     self.timer.restart()
+                    self.connect()  # start new attempt now so it gets the whole timeout
 
         return self.connected
 
